@@ -90,7 +90,8 @@ Fixpoint link_then_unlink_failed (t : list (ev * option nat)) : bool :=     (* [
 
 Definition known5 (c : c05_case) : bool := link_then_unlink_failed (rev (r_trace (k_run (k5_base c)))).
 
-Definition c05_verdict (c : c05_case) : verdict := (agree5 c, holds5 c, known5 c).
+(* the sampled kernel's view (strace) is evaluated on the observation only, as in C04 *)
+Definition c05_verdict (c : c05_case) : verdict := (agree5 c, holds5 c && kernel_holds (k5_base c), known5 c).
 
 Definition c05_explain (c : c05_case) :=
   let b := k5_base c in
